@@ -112,28 +112,41 @@ func inList(l []string, s string) bool {
 
 // orig read back as `back` under the selection: selected attributes and selected
 // relationships whose data was requested keep their value, everything else is zero.
-func sameResource(orig, back jsonapi.Resource, fields []string, relData []string) string {
+// truth, when the generator has a record of orig, is what was written into it: type, ID and
+// values are taken from there, not from orig's getters (orig is asked only when truth is nil);
+// the zero of an unselected field is the harness's own (zeroFieldIndep).
+func sameResource(orig, back jsonapi.Resource, fields []string, relData []string, truth *resTruth) string {
 	ot, bt := orig.GetType(), back.GetType()
+	var origID any = orig.Get("id")
+	get := orig.Get
+	if truth != nil {
+		ot, origID = truth.typ, truth.id
+		get = func(name string) any {
+			if v, ok := truth.vals[name]; ok {
+				return v
+			}
+			return zeroFieldIndep(truth.typ, name)
+		}
+	}
 	if ot.Name != bt.Name {
 		return "type name " + bt.Name
 	}
-	if orig.Get("id") != back.Get("id") {
+	if origID != back.Get("id") {
 		return "id"
 	}
-	zero := newSoft(ot)
 	for name := range ot.Attrs {
-		want := orig.Get(name)
+		want := get(name)
 		if !inList(fields, name) {
-			want = zero.Get(name)
+			want = zeroFieldIndep(ot, name)
 		}
 		if !sameVal(want, back.Get(name)) {
 			return fmt.Sprintf("attribute %s: %s became %s", name, sxVal(want), sxVal(back.Get(name)))
 		}
 	}
 	for name := range ot.Rels {
-		want := orig.Get(name)
+		want := get(name)
 		if !inList(fields, name) || !inList(relData, name) {
-			want = zero.Get(name)
+			want = zeroFieldIndep(ot, name)
 		}
 		if !sameVal(want, back.Get(name)) {
 			return fmt.Sprintf("relationship %s: %s became %s", name, sxVal(want), sxVal(back.Get(name)))
@@ -145,6 +158,13 @@ func sameResource(orig, back jsonapi.Resource, fields []string, relData []string
 // ---------- generation ----------
 
 func genResOf(r *Rng, st stype, o *Out) jsonapi.Resource {
+	res, _ := genResOfT(r, st, o)
+	return res
+}
+
+// genResOfT also returns the generator's record of what it wrote into the resource (the
+// oracles' expected side: resTruth). Same random choices as genResOf, in the same order.
+func genResOfT(r *Rng, st stype, o *Out) (jsonapi.Resource, *resTruth) {
 	typ := stripNewFunc(st.typ)
 	vals := genFieldVals(r, typ)
 	for k, v := range vals {
@@ -169,13 +189,13 @@ func genResOf(r *Rng, st stype, o *Out) jsonapi.Resource {
 	id := mStrPool[1+r.IntN(len(mStrPool)-1)]
 	if st.backed && r.bool() {
 		o.stat("res.struct-literal")
-		return newWrappedLiteral(typ, id, vals)
+		return newWrappedLiteral(typ, id, vals), &resTruth{typ: typ, id: id, vals: vals}
 	}
 	if st.backed {
 		res = newWrapped(typ)
 	} else {
 		if r.chance(1, 5) {
-			return newSoftShrunk(r, typ, id, vals, o)
+			return newSoftShrunk(r, typ, id, vals, o), &resTruth{typ: typ, id: id, vals: vals}
 		}
 		sr := newSoftVia(r, typ, o)
 		res = sr
@@ -183,16 +203,20 @@ func genResOf(r *Rng, st stype, o *Out) jsonapi.Resource {
 			// only some of the fields are ever set: the others hold their zero value
 			o.stat("res.soft-partly-set")
 			sr.SetID(id)
+			held := map[string]any{}
 			for _, k := range sortedKeys(vals) {
 				if r.bool() {
 					sr.Set(k, cloneVal(vals[k]))
+					held[k] = vals[k]
+				} else {
+					held[k] = zeroFieldIndep(typ, k)
 				}
 			}
-			return res
+			return res, &resTruth{typ: typ, id: id, vals: held}
 		}
 	}
 	fill(res, id, vals)
-	return res
+	return res, &resTruth{typ: typ, id: id, vals: vals}
 }
 
 func genErrors(r *Rng) []jsonapi.Error {
@@ -253,6 +277,15 @@ func docResources(d *jsonapi.Document) []jsonapi.Resource {
 
 func resKeyOf(r jsonapi.Resource) string { return r.Get("id").(string) + " " + r.GetType().Name }
 
+// truthKeyOf: the (ID, type name) pair of a resource from the generator's record of it (the
+// resource's own getters are asked only for a resource the generator has no record of).
+func truthKeyOf(truth map[jsonapi.Resource]*resTruth, r jsonapi.Resource) string {
+	if t := truth[r]; t != nil {
+		return t.id + " " + t.typ.Name
+	}
+	return resKeyOf(r)
+}
+
 // document suite: marshal (C03, C04, C11), include histories (C03), round trip (C02, C01).
 func suiteDocument(r *Rng, n int, thorough bool, o *Out) {
 	reps := 3
@@ -264,6 +297,9 @@ func suiteDocument(r *Rng, n int, thorough bool, o *Out) {
 		doc := &jsonapi.Document{PrePath: prefixes[r.IntN(len(prefixes))]}
 		uniquePrimary := true
 		aliased := ""
+		// the generator's record of every resource it made for this document, by identity
+		truth := map[jsonapi.Resource]*resTruth{}
+		var primTruth []*resTruth // of the members of a primary collection, in the order added
 		// primary data
 		dataKind := r.IntN(9)
 		mixedTyped := false
@@ -272,7 +308,9 @@ func suiteDocument(r *Rng, n int, thorough bool, o *Out) {
 			doc.Data = nil
 			o.stat("data.nil")
 		case 1, 2:
-			doc.Data = genResOf(r, ts[r.IntN(len(ts))], o)
+			res, tr := genResOfT(r, ts[r.IntN(len(ts))], o)
+			truth[res] = tr
+			doc.Data = res
 			o.stat("data.resource")
 		case 3, 4, 5:
 			st := ts[r.IntN(len(ts))]
@@ -311,11 +349,13 @@ func suiteDocument(r *Rng, n int, thorough bool, o *Out) {
 						o.stat("data.WrapperCollection-mixed")
 					}
 				}
-				res := genResOf(r, mst, o)
-				if seen[resKeyOf(res)] {
+				res, tr := genResOfT(r, mst, o)
+				truth[res] = tr
+				primTruth = append(primTruth, tr)
+				if seen[truthKeyOf(truth, res)] {
 					uniquePrimary = false
 				}
-				seen[resKeyOf(res)] = true
+				seen[truthKeyOf(truth, res)] = true
 				if sc, isSC := col.(*jsonapi.SoftCollection); isSC && sc.Type != nil && r.chance(1, 3) {
 					// the caller's row buffer: a soft resource typed with the collection's own
 					// *Type, added, then written to again - the collection holds what it was
@@ -323,13 +363,13 @@ func suiteDocument(r *Rng, n int, thorough bool, o *Out) {
 					sr := &jsonapi.SoftResource{}
 					sr.SetType(sc.Type)
 					sr.SetID(res.Get("id").(string))
-					for _, f := range mst.typ.Fields() {
+					for _, f := range fieldsIndep(mst.typ) {
 						sr.Set(f, cloneVal(res.Get(f)))
 					}
 					want := sxResView(sr)
 					sc.Add(sr)
 					other := genResOf(r, mst, o)
-					for _, f := range mst.typ.Fields() {
+					for _, f := range fieldsIndep(mst.typ) {
 						sr.Set(f, cloneVal(other.Get(f)))
 					}
 					if got := sxResView(sc.At(sc.Len() - 1)); got != want && aliased == "" {
@@ -376,9 +416,17 @@ func suiteDocument(r *Rng, n int, thorough bool, o *Out) {
 			o.stat("doc.resources-index-empty")
 		}
 		prim := docResources(doc)
+		if _, isCol := doc.Data.(jsonapi.Collection); isCol && len(prim) == len(primTruth) {
+			// (a collection may hold copies of what it was given: its members by position)
+			for i := range prim {
+				truth[prim[i]] = primTruth[i]
+			}
+		}
 		var pool []jsonapi.Resource
 		for i := r.IntN(5); i > 0; i-- {
-			pool = append(pool, genResOf(r, ts[r.IntN(len(ts))], o))
+			res, tr := genResOfT(r, ts[r.IntN(len(ts))], o)
+			truth[res] = tr
+			pool = append(pool, res)
 		}
 		if len(prim) > 0 && !mixedTyped && r.chance(1, 4) {
 			// the same resource (type name and ID) as a primary one, held as a soft resource
@@ -406,7 +454,7 @@ func suiteDocument(r *Rng, n int, thorough bool, o *Out) {
 				doc.Data = pool[r.IntN(len(pool))]
 				prim = docResources(doc)
 				for j := range doc.Included {
-					if resKeyOf(doc.Included[j]) == resKeyOf(prim[0]) {
+					if truthKeyOf(truth, doc.Included[j]) == truthKeyOf(truth, prim[0]) {
 						uniquePrimary = false // it had been included before it became primary
 					}
 				}
@@ -431,9 +479,9 @@ func suiteDocument(r *Rng, n int, thorough bool, o *Out) {
 		fields := map[string][]string{}
 		for _, st := range ts {
 			if r.chance(5, 6) {
-				fields[st.typ.Name] = genSelection(r, st.typ.Fields())
+				fields[st.typ.Name] = genSelection(r, fieldsIndep(st.typ))
 				if r.chance(1, 2) {
-					fields[st.typ.Name] = append([]string{}, st.typ.Fields()...)
+					fields[st.typ.Name] = append([]string{}, fieldsIndep(st.typ)...)
 				}
 			}
 		}
@@ -535,6 +583,10 @@ func suiteDocument(r *Rng, n int, thorough bool, o *Out) {
 			}
 			if l := tree.get("links").get("self"); l == nil || l.kind != 's' || l.text != selfHref {
 				v.fail("C03", "self link")
+			} else if m := selfLinkVerdict(l.text, doc.PrePath, frags, resID == "", fields, rules, page, label); m != "" {
+				// (selfHref is what URL.String says: the link must also SAY what the URL
+				// holds, decided by decoding it - oracle_indep.go)
+				v.fail("C03", m)
 			}
 			if tree.get("data") != nil && tree.get("errors") != nil {
 				v.fail("C03", "both data and errors")
@@ -547,7 +599,11 @@ func suiteDocument(r *Rng, n int, thorough bool, o *Out) {
 			}
 			// resource objects
 			checkOne := func(n *jnode, res jsonapi.Resource) {
-				checkResourceObject(&v, n, res, doc.PrePath, fields[res.GetType().Name], doc.RelData, nil)
+				tn := res.GetType().Name
+				if t := truth[res]; t != nil {
+					tn = t.typ.Name
+				}
+				checkResourceObject(&v, n, res, doc.PrePath, fields[tn], doc.RelData, truth[res])
 			}
 			if data := tree.get("data"); data != nil {
 				switch {
@@ -572,11 +628,39 @@ func suiteDocument(r *Rng, n int, thorough bool, o *Out) {
 			if uniquePrimary {
 				seen := map[string]bool{}
 				for _, res := range append(append([]jsonapi.Resource{}, prim...), doc.Included...) {
-					k := resKeyOf(res)
+					k := truthKeyOf(truth, res)
 					if seen[k] {
 						v.fail("C03", "type/ID pair "+k+" appears twice across data and included")
 					}
 					seen[k] = true
+				}
+				// ... and read from the output itself: the type and id members of the resource
+				// objects under data and included (primary data made of bare identifiers is no
+				// resource object: the full resource may be included beside it)
+				seenOut := map[string]bool{}
+				var objs []*jnode
+				_, isIdent := doc.Data.(jsonapi.Identifier)
+				_, isIdents := doc.Data.(jsonapi.Identifiers)
+				if isIdent || isIdents {
+					// only the included list is read
+				} else if data := tree.get("data"); data != nil && data.kind == 'a' {
+					objs = append(objs, data.items...)
+				} else if data != nil && data.kind == 'o' {
+					objs = append(objs, data)
+				}
+				if inc := tree.get("included"); inc != nil && inc.kind == 'a' {
+					objs = append(objs, inc.items...)
+				}
+				for _, ob := range objs {
+					ty, id := ob.get("type"), ob.get("id")
+					if ob.kind != 'o' || ty == nil || id == nil || ty.kind != 's' || id.kind != 's' {
+						continue
+					}
+					k := id.text + " " + ty.text
+					if seenOut[k] {
+						v.fail("C03", "type/ID pair "+k+" appears twice in the output across data and included")
+					}
+					seenOut[k] = true
 				}
 			}
 		}
@@ -592,7 +676,7 @@ func suiteDocument(r *Rng, n int, thorough bool, o *Out) {
 			obsU = "err"
 		} else {
 			obsU = "ok " + sxDocResult(back)
-			if props, m := roundTrip(back, doc, fields, prim); m != "" {
+			if props, m := roundTrip(back, doc, fields, prim, truth); m != "" {
 				v.fail(props, "round trip: "+m)
 			}
 		}
@@ -641,7 +725,7 @@ func suiteDocument(r *Rng, n int, thorough bool, o *Out) {
 			for _, st := range ts {
 				sel := fields[st.typ.Name]
 				var other string
-				for _, f := range st.typ.Fields() {
+				for _, f := range fieldsIndep(st.typ) {
 					if !inList(sel, f) {
 						other = f
 						break
@@ -676,7 +760,7 @@ func suiteDocument(r *Rng, n int, thorough bool, o *Out) {
 	}
 }
 
-func roundTrip(back *jsonapi.Document, doc *jsonapi.Document, fields map[string][]string, prim []jsonapi.Resource) (string, string) {
+func roundTrip(back *jsonapi.Document, doc *jsonapi.Document, fields map[string][]string, prim []jsonapi.Resource, truth map[jsonapi.Resource]*resTruth) (string, string) {
 	if len(doc.Errors) > 0 {
 		if back.Data != nil {
 			return "C02", "errors document came back with data"
@@ -697,7 +781,10 @@ func roundTrip(back *jsonapi.Document, doc *jsonapi.Document, fields map[string]
 	}
 	cmp := func(a, b jsonapi.Resource) string {
 		t := a.GetType().Name
-		return sameResource(a, b, fields[t], doc.RelData[t])
+		if tr := truth[a]; tr != nil {
+			t = tr.typ.Name
+		}
+		return sameResource(a, b, fields[t], doc.RelData[t], truth[a])
 	}
 	switch x := doc.Data.(type) {
 	case nil:
@@ -744,12 +831,12 @@ func roundTrip(back *jsonapi.Document, doc *jsonapi.Document, fields map[string]
 	for _, a := range doc.Included {
 		found := false
 		for _, b := range back.Included {
-			if resKeyOf(a) == resKeyOf(b) && cmp(a, b) == "" {
+			if truthKeyOf(truth, a) == resKeyOf(b) && cmp(a, b) == "" {
 				found = true
 			}
 		}
 		if !found {
-			return "C02", "included resource " + resKeyOf(a) + " did not come back with equal values"
+			return "C02", "included resource " + truthKeyOf(truth, a) + " did not come back with equal values"
 		}
 	}
 	if sxMetaMap(doc.Meta) != sxMetaMap(back.Meta) {
